@@ -20,7 +20,8 @@ def op(o, kind, i, **kw):
 
 def ev(t, **kw):
     d = {"t": t, "peer": "", "seq": 0, "node": "", "cp": "", "seid": "", "sref": 0, "rref": 0, "ops": [], "faults": [], "faults2": [],
-         "reports": [], "tt": "", "tpeer": "", "tseq": 0, "raw": "", "maxrt": 0, "txseq0": "", "tag": ""}
+         "reports": [], "tt": "", "tpeer": "", "tseq": 0, "raw": "", "maxrt": 0, "txseq0": "", "tag": "",
+         "mbase": "", "mut": {"op": "", "k": 0, "v": 0, "s": ""}}
     d.update(kw)
     return d
 
